@@ -395,7 +395,9 @@ def step_wise_and_run_to_completion_prepare_members_alike(ctx):
         if pre and isinstance(pre[-1], ast.If) and 'SetObjective' in unparse(pre[-1]) and '_cost' in unparse(pre[-1].test):
             pre = pre[:-1]
         post = g.node.body[i + 1:]
-        parts[inner] = (g, SB.summary(SB.block(pre), name_map={sp: 'solver'}), SB.summary(SB.block(post), name_map={sp: 'solver'}))
+        # helpers extracted inside one of the two closures (or shared private helpers of the package) are looked through
+        inl = SB.Inline(ctx.model, g, known=(), depth=2)
+        parts[inner] = (g, SB.summary(SB.block(pre), name_map={sp: 'solver'}, inline=inl), SB.summary(SB.block(post), name_map={sp: 'solver'}, inline=inl))
     (g1, pre1, post1), (g2, pre2, post2) = parts['_step'], parts['_solve']
     ctx.stats['terms_compared'] += len(pre1) + len(post1)
     ctx.check(pre1 == pre2, 'AbstractEnsembleSolver._step/_solve#prepare', '%d path summaries of the preparation agree' % len(pre1),
